@@ -17,3 +17,25 @@ package bitcoin
 //@   ensures err == nil ==> ghost.txConfirmations == result0 && result0 >= 1 && result0 <= ghost.btcLatestHeight + 1
 //@ assume func Chain.GetBlockHeader
 //@   ensures err == nil ==> result0 == @headerAt(recv, blockHeight)
+
+// ---------------------------------------------------------------------------
+// C34: observations of the Bitcoin chain used by the main UTXO lookup and the
+// sync check. txOf(c, h) is the transaction the client returns for hash h
+// (one stable observation during a lookup); real transactions have at least
+// one input.
+//@ spec func txOf(c ref, h Hash) *Transaction
+//@ assume func Chain.GetTransaction
+//@   ensures err == nil ==> result0 != nil && result0 == @txOf(recv, arg0) && len(result0.Inputs) >= 1 && len(result0.Outputs) <= 4294967295 && (forall k int :: 0 <= k && k < len(result0.Inputs) ==> result0.Inputs[k] != nil && result0.Inputs[k].Outpoint != nil) && (forall k int :: 0 <= k && k < len(result0.Outputs) ==> result0.Outputs[k] != nil)
+//@ ghost obsConfirmed []*UnspentTransactionOutput
+//@ ghost obsMempool []*UnspentTransactionOutput
+//@ ghost obsConfirmedOK bool
+//@ assume func Chain.GetUtxosForPublicKeyHash
+//@   modifies ghost.obsConfirmed, ghost.obsConfirmedOK
+//@   ensures ghost.obsConfirmed == result0 && ghost.obsConfirmedOK == (err == nil)
+//@   ensures err == nil ==> (forall k int :: 0 <= k && k < len(result0) ==> result0[k] != nil && result0[k].Outpoint != nil)
+//@ assume func Chain.GetMempoolUtxosForPublicKeyHash
+//@   modifies ghost.obsMempool
+//@   ensures ghost.obsMempool == result0
+//@   ensures err == nil ==> (forall k int :: 0 <= k && k < len(result0) ==> result0[k] != nil && result0[k].Outpoint != nil)
+//@ func Transaction.Hash
+//@   pure
